@@ -29,7 +29,7 @@ BACKREFS = {
     "E": ["paths", "sets"],
     "O": ["paths", "sets"],
     "U": ["sets"],
-    "G": ["sets"],
+    "G": ["sets", "paths"],
     "\n": ["paths", "sets"],
 }
 
@@ -219,7 +219,7 @@ ALLOWED_TARGETS = {
     ("E", "sid1"): "S", ("E", "sid2"): "S",
     ("G", "sid1"): "S", ("G", "sid2"): "S",
     ("F", "sid"): "S",
-    ("O", "items"): "SEO\n", ("U", "items"): "SEGOU\n",
+    ("O", "items"): "SEGO\n", ("U", "items"): "SEGOU\n",
 }
 
 
